@@ -216,6 +216,8 @@ inductive Op
   /-- inbound `Message::Request` -/
   | request (peer reqPeer : Peer) (reqId : Nat) (addrs : List Maddr)
   | inboundFailure (peer : Peer) (reqId : Nat)
+  /-- `request_response::Event::ResponseSent`: dropped by `Behaviour::poll`, never reaches the server -/
+  | responseSent (peer : Peer) (reqId : Nat)
   | dialFailure (peer : Option Peer)
   deriving Repr, DecidableEq
 
@@ -274,6 +276,7 @@ def step (cfg : Cfg) (st : St) : Op → St × Out
       if o.req == reqId then ({ st with ongoing := erase st.ongoing peer }, .inboundErr o.probe peer)
       else ({ st with probeId := st.probeId + 1 }, .inboundErr st.probeId peer)
     | none => ({ st with probeId := st.probeId + 1 }, .inboundErr st.probeId peer)
+  | .responseSent _ _ => (st, .nothing)
   | .dialFailure none => (st, .nothing)
   | .dialFailure (some peer) =>
     match lookup st.ongoing peer with
@@ -284,15 +287,17 @@ def step (cfg : Cfg) (st : St) : Op → St × Out
 
 structure Mon where
   now : Nat
-  /-- dial-backs in flight: (peer, probe id) -/
+  /-- dial-backs started and not yet finished: (peer, id of the request that started it) -/
   inflight : List (Peer × Nat)
   /-- every dial-back ever started: (peer, start time), oldest first -/
   log : List (Peer × Nat)
   /-- observed addresses of the live connections, as reported by the ops -/
   conns : List (Peer × List (Nat × Option Maddr))
+  /-- request id of the request op being judged -/
+  curReq : Nat
   deriving Repr, DecidableEq
 
-def Mon.init : Mon := ⟨0, [], [], []⟩
+def Mon.init : Mon := ⟨0, [], [], [], 0⟩
 
 /-- number of logged dial-backs that started within the last `period` (not yet expired at `now`) -/
 def live (period now : Nat) (log : List (Peer × Nat)) : List (Peer × Nat) :=
@@ -319,13 +324,17 @@ def monConn (m : Mon) : Op → Mon
       match lookup m.conns peer with
       | none => m
       | some cs => { m with conns := insert m.conns peer (cs.filter (fun c => !(c.1 == conn))) }
+  | .request _ _ reqId _ => { m with curReq := reqId }
+  /- the inbound request `reqId` of `peer` died: a dial-back started by exactly that request is
+  finished (nobody is left to answer); a failure of any OTHER request finishes nothing -/
+  | .inboundFailure peer reqId => { m with inflight := m.inflight.filter (· ≠ (peer, reqId)) }
   | _ => m
 
 /-- Judge one output in monitor state `m` (`none` = accepted). -/
 def judge (cfg : Cfg) (m : Mon) (out : Out) : Mon × Option String :=
   match out with
-  | .dial probe peer addrs =>
-    let m' := { m with inflight := (peer, probe) :: m.inflight, log := m.log ++ [(peer, m.now)] }
+  | .dial _ peer addrs =>
+    let m' := { m with inflight := (peer, m.curReq) :: m.inflight, log := m.log ++ [(peer, m.now)] }
     if hasKey m.inflight peer then (m', some "single_flight")
     else if (live cfg.period m.now m.log).length ≥ cfg.globalMax then (m', some "global_throttle")
     else if countPeer (live cfg.period m.now m.log) peer ≥ cfg.peerMax then (m', some "peer_throttle")
@@ -333,9 +342,9 @@ def judge (cfg : Cfg) (m : Mon) (out : Out) : Mon × Option String :=
     else if !(nodupB addrs) then (m', some "duplicate")
     else if !(addrsOkFor peer ((lookup m.conns peer).getD []) addrs) then (m', some "address_not_ok")
     else (m', none)
-  | .response probe peer _ => ({ m with inflight := m.inflight.filter (· ≠ (peer, probe)) }, none)
-  | .dialFailed probe peer => ({ m with inflight := m.inflight.filter (· ≠ (peer, probe)) }, none)
-  | .inboundErr probe peer => ({ m with inflight := m.inflight.filter (· ≠ (peer, probe)) }, none)
+  /- the outcome of the dial to `peer` finishes its dial-back -/
+  | .response _ peer _ => ({ m with inflight := m.inflight.filter (fun e => !(e.1 == peer)) }, none)
+  | .dialFailed _ peer => ({ m with inflight := m.inflight.filter (fun e => !(e.1 == peer)) }, none)
   | _ => (m, none)
 
 /-- One monitor step: the op updates clock/connections first (as in the code), then the output is
@@ -350,6 +359,14 @@ def monRun (cfg : Cfg) : Mon → List (Op × Out) → Mon × Option String
     match monStep cfg m op out with
     | (m', some k) => (m', some k)
     | (m', none) => monRun cfg m' rest
+
+/-- number of dial-backs of `p` started (a `Dial` was emitted) and not yet finished -/
+def inflightCount (m : Mon) (p : Peer) : Nat := countPeer m.inflight p
+
+/-- the key set of `ongoing_inbound` (as observed on the implementation) is exactly the set of
+peers with a dial-back in flight, and no peer has more than one -/
+def ongoingOk (m : Mon) (keys : List Peer) : Bool :=
+  keys.all (fun p => inflightCount m p == 1) && m.inflight.all (fun e => keys.contains e.1 && inflightCount m e.1 == 1)
 
 /-- the (op, output) trace of the model -/
 def trace (cfg : Cfg) : St → List Op → List (Op × Out)
